@@ -796,6 +796,21 @@ int vrt_poll(void *fds, unsigned long nfds, int timeout)
 	return 0;
 }
 
+/* poll() of the futex compatibility layer: may be interrupted by a signal (fault plan --pollfaults N per mille) */
+static int pollfaults;
+int vrt_poll_compat(void *fds, unsigned long nfds, int timeout)
+{
+	if (vrt_active && pollfaults && choose(1000) < (unsigned)pollfaults) {
+		vrt_in_prim++;
+		vrt_point();
+		vrt_log("POLL_EINTR");
+		vrt_in_prim--;
+		errno = EINTR;
+		return -1;
+	}
+	return vrt_poll(fds, nfds, timeout);
+}
+
 void vrt_relax_impl(void)
 {
 	struct vthread *me = &T[vrt_tid];
@@ -914,6 +929,7 @@ int vrt_init(int argc, char **argv)
 		else if (!strcmp(argv[i], "--psig") && i + 1 < argc) psig = atoi(argv[++i]);
 		else if (!strcmp(argv[i], "--sigdepth") && i + 1 < argc) maxsigdepth = atoi(argv[++i]);
 		else if (!strcmp(argv[i], "--budget") && i + 1 < argc) budget = strtoul(argv[++i], 0, 0);
+		else if (!strcmp(argv[i], "--pollfaults") && i + 1 < argc) pollfaults = atoi(argv[++i]);
 		else if (!strcmp(argv[i], "--pctd") && i + 1 < argc) pct_d = atoi(argv[++i]);
 		else if (!strcmp(argv[i], "--pctlen") && i + 1 < argc) pct_len = strtoul(argv[++i], 0, 0);
 		else if (!strcmp(argv[i], "--trace") && i + 1 < argc) tr = argv[++i];
